@@ -5,7 +5,10 @@
 //   fbare <seq>                     IP / TCP(seq) without payload layer
 //   fadv <seq>                      Flow::advance_sequence
 //   fignore                         Flow::ignore_data_packets()
-// result: "<r> ooo=<n> seq=.. total=.. plen=.. ph=.. buf=.." where r = r=1 iff the data callback fired during the op,
+//   fpkt <flags> <seq> <hex|~> [@off]  IP / TCP(seq, flags) [/ RawPDU(hex)]: segments that move Flow::update_state (a SYN that
+//                                   opens the flow and sets the expected sequence number, SYN carrying data, FIN / RST with data,
+//                                   data in every state); "~" = no payload layer; fpktp = serialized and re-parsed first
+// result: "<r> ooo=<n> st=<Flow::state()> seq=.. total=.. plen=.. ph=.. buf=.." where r = r=1 iff the data callback fired during the op,
 // ooo = number of out-of-order callback invocations during the op (with a check that it was handed seq and payload).
 #include "common.h"
 #include "c06_show.h"
@@ -29,7 +32,7 @@ static std::string show(const std::string& r, const Ctx& c) {
     const TCPIP::Flow& f = *c.flow;
     std::ostringstream o;
     o << r << " ooo=" << c.ooo_calls << (c.ooo_args_ok ? "" : "!badargs")
-      << " seq=" << f.sequence_number() << " total=" << f.total_buffered_bytes()
+      << " st=" << int(f.state()) << " seq=" << f.sequence_number() << " total=" << f.total_buffered_bytes()
       << " plen=" << f.payload().size() << " ph=" << fnv(f.payload()) << " buf=";
     bool first = true;
     for (auto& kv : f.buffered_payload()) {
@@ -69,6 +72,28 @@ int main() {
             ip.rfind_pdu<TCP>().seq(seq);
             ip.rfind_pdu<TCP>().flags(TCP::ACK);
             if (w[0] == "fsegp") {
+                std::vector<uint8_t> wire = ip.serialize();
+                IP parsed(wire.data(), uint32_t(wire.size()));
+                c.flow->process_packet(parsed);
+            } else {
+                c.flow->process_packet(ip);
+            }
+            return show(c.data_calls ? "r=1" : "r=0", c) + (c.data_calls > 1 ? " !multi-data-callback" : "");
+        }
+        if (w.size() >= 4 && (w[0] == "fpkt" || w[0] == "fpktp")) {
+            uint32_t seq = uint32_t(std::stoull(w[2]));
+            unsigned flags = unsigned(std::stoul(w[1])) & 0xfff;
+            IP ip = IP("10.0.0.2", "10.0.0.1") / TCP(80, 4321);
+            TCP& tcp = ip.rfind_pdu<TCP>();
+            tcp.seq(seq); tcp.flags(small_uint<12>(uint16_t(flags)));
+            bytes d;
+            if (w[3] != "~") {
+                if (!parse_hex(w[3], d)) return "bad-op";
+                tcp.inner_pdu(RawPDU(d.begin(), d.end()));
+            }
+            // the out-of-order callback is handed the sequence number of the first payload byte (one past a SYN)
+            c.cur_seq = seq + ((flags & TCP::SYN) ? 1 : 0); c.cur_payload = d;
+            if (w[0] == "fpktp") {
                 std::vector<uint8_t> wire = ip.serialize();
                 IP parsed(wire.data(), uint32_t(wire.size()));
                 c.flow->process_packet(parsed);
